@@ -179,11 +179,12 @@ _G_STEP_B = _v2p("^VerifC01_step_(io|feedback)$", dict(n=[1, 2, 3], J=[2]), dict
 _G_PRIOR = _v2p("^VerifC01_step_prioritize$", dict(n=[1, 2], J=[1]), dict(n=[1, 2], J=[2]))
 _G_LOOP1 = _v2p("^VerifC07_(loop|main)$", dict(n=[1], J=[1], B=[1], K=[1]), dict(n=[1], J=[2], B=[2], K=[2]))
 _G_PROMPT = _v2p("^VerifC07_prompt$", dict(n=[1, 2, 3], B=[2]), dict(n=[1, 2, 3, 4], B=[3]))
-_G_NEW = _v2p("^VerifC15_new$", dict(n=[1, 2, 3]), dict(n=[1, 2, 3, 4]))
+# (approx: the Rate case runs with uninterpreted floats, so a counterexample that does not replay concretely is only a candidate)
+_G_NEW = _v2p("^VerifC15_new$", dict(n=[1, 2, 3]), dict(n=[1, 2, 3, 4]), approx=True)
 _G_SAFEDIV = _v2p("^VerifC15_safeDivide$", dict(n=[1, 2, 3]), dict(n=[1, 2, 3, 4]), native=True)
 _G_ROUND = _v2p("^Verif(C05_saturated_round|C06_progress|C06_sole_priority)$", dict(n=[1, 2], Hmax=[3]), dict(n=[1, 2, 3], Hmax=[4]))
 _G_ROUND2 = _v2p("^VerifC06_progress_two_rounds$", dict(n=[2, 3], Hmax=[3]), dict(n=[2, 3, 4], Hmax=[4]))
-_G_RUN = _v2p("^VerifC02_run$", dict(n=[1, 2], H=[1, 2], J=[1]), dict(n=[1, 2], H=[1, 2, 3], J=[2]), maxpaths=400000)
+_G_RUN = _v2p("^VerifC02_run$", dict(n=[1, 2], H=[1, 2], J=[1]), dict(n=[1, 2], H=[1, 2, 3], J=[1]), maxpaths=400000, approx=True)
 _G_SIMPLE = dict(mod="v2", pkg="priority/simple", overlay="harness/v2/simple", harness="^VerifC01_simple_handler$",
                  params=dict(quick=dict(H=[1, 2], K=[3]), thorough=dict(H=[1, 2, 3], K=[4])))
 
@@ -235,10 +236,10 @@ PROPS["C16"] = dict(
                "Lasso bound: 40 repetitions of the same termination-signal case. Trusted: engine, breaker/closing executed from their real SSA, context stub.",
     technique="symbolic execution of go/ssa with adversarial stop injection and lasso detection; Int-encoded SMT (z3); native real-time scenario replay",
     assumptions=_PRIO_ASSUME + ["after the stop signal the environment is silent (the worst case the property names)"],
-    bounds=dict(quick="priority n=1, B=1, J=1; join JS=2, M=3", thorough="priority n<=2; join JS<=3, M=4"),
+    bounds=dict(quick="priority n=1, B=1, J=1; join JS=2, M=3", thorough="priority n=1, J<=2, B<=2; join JS<=3, M=4"),
     groups=[
         dict(mod="v1", pkg="join", overlay="harness/v1/join", harness="^VerifC16_v1join_stop", params=dict(quick=dict(JS=[2], M=[3], T=[2]), thorough=dict(JS=[2, 3], M=[4], T=[2]))),
-        _v1p("^VerifC16_v1prio_stop$", dict(n=[1], J=[1], B=[1], K=[1]), dict(n=[1, 2], J=[1], B=[1], K=[1]), scenarios=_SC16, maxtime=dict(quick=0, thorough=600)),
+        _v1p("^VerifC16_v1prio_stop$", dict(n=[1], J=[1], B=[1], K=[1]), dict(n=[1], J=[1, 2], B=[1, 2], K=[1]), scenarios=_SC16),
     ],
 )
 
